@@ -52,3 +52,26 @@ def uniq(seq):
             seen.add(k)
             out.append(x)
     return out
+
+
+def enc(x):
+    """JSON-safe, bit-exact encoding of nested cases (floats as 'f:<hex>')."""
+    if isinstance(x, bool) or x is None or isinstance(x, (int, str)):
+        return x
+    if isinstance(x, float):
+        return "f:" + x.hex()
+    if isinstance(x, (list, tuple)):
+        return [enc(y) for y in x]
+    if isinstance(x, dict):
+        return {str(k): enc(v) for k, v in x.items()}
+    return repr(x)
+
+
+def dec(x):
+    if isinstance(x, str) and x.startswith("f:"):
+        return float.fromhex(x[2:])
+    if isinstance(x, list):
+        return tuple(dec(y) for y in x)
+    if isinstance(x, dict):
+        return {k: dec(v) for k, v in x.items()}
+    return x
